@@ -190,24 +190,11 @@ Definition exec_item (fuel r s:nat) (ev:evt) (it:cellitem) : M nat :=
   end.
 
 (* dispatch_table::chain_row (favor_runtime_speed) *)
-Fixpoint chain_row (fuel r s:nat) (ev:evt) (l:list cellitem) : M nat :=
-  match l with
-  | [] => ret HANDLED_FALSE
-  | x :: rest =>
-      res <- exec_item fuel r s ev x ;;
-      if chain_continue res
-      then (sub <- chain_row fuel r s ev rest ;; ret (chain_merge res sub))
-      else ret res
-  end.
+Definition chain_row (fuel r s:nat) (ev:evt) (l:list cellitem) : M nat :=
+  chain_gen (exec_item fuel r s ev) chain_continue chain_merge l.
 (* favor_compile_time chain_row::operator() *)
-Fixpoint fct_chain (fuel r s:nat) (ev:evt) (res:nat) (l:list cellitem) : M nat :=
-  match l with
-  | [] => ret res
-  | x :: rest =>
-      if tab1 fct_chain_continue res
-      then (h <- exec_item fuel r s ev x ;; fct_chain fuel r s ev (tab2 fct_chain_step res h) rest)
-      else ret res
-  end.
+Definition fct_chain (fuel r s:nat) (ev:evt) (res:nat) (l:list cellitem) : M nat :=
+  loop_gen (exec_item fuel r s ev) (tab1 fct_chain_continue) (tab2 fct_chain_step) res l.
 
 Definition run_cell (fuel r s:nat) (ev:evt) (l:list cellitem) : M nat :=
   if c_fct cf then fct_chain fuel r s ev HANDLED_FALSE l
@@ -236,15 +223,20 @@ Definition internal_processable (ety:nat) : bool :=
 Definition internal_items (ety:nat) : list cellitem :=
   map CRow (rev (filter (row_matches ety) (m_irows mc))).
 
+(* no_transition: once per region with that region's active id, only when nothing was handled, never for
+   completion events, and on a submachine only for events sent to it directly *)
+Definition nt_phase (ev:evt) (direct:bool) (handled:nat) : M unit :=
+  if (negb contained || direct) && Nat.eqb handled 0 && negb (Nat.eqb (e_ty ev) EV_NONE)
+  then (rn <- get ;; iterM (fun s => cb KNoTrans s ev false) (act rn))
+  else ret tt.
+
 Definition do_process_event (fuel:nat) (ev:evt) (direct:bool) : M nat :=
   handled <- regions_loop fuel ev (m_nreg mc) 0 HANDLED_FALSE ;;
   handled <- (if internal_processable (e_ty ev) && internal_tried handled
               then (rn <- get ;; ri <- run_cell fuel 0 (nth 0 (act rn) 0) ev (internal_items (e_ty ev)) ;;
                     ret (bit_or handled ri))
               else ret handled) ;;
-  (if (negb contained || direct) && Nat.eqb handled 0 && negb (Nat.eqb (e_ty ev) EV_NONE)
-   then (rn <- get ;; iterM (fun s => cb KNoTrans s ev false) (act rn))
-   else ret tt) ;;
+  nt_phase ev direct handled ;;
   ret handled.
 
 (* ---- run to completion ---- *)
